@@ -140,6 +140,18 @@ func c14Fixed() [][]byte {
 		}
 		out = append(out, append(b, 'Z'))
 		out = append(out, []byte{'C', 4, 'b', 'e', 'a', 'n', 'I', 0, 0x10, 0, 0})
+		// a typed list of maps inside the map its elements refer to (the map is still being read when
+		// the references arrive; found by the thorough tier)
+		b = append([]byte{}, 0x7a, 'H')
+		for i := 0; i < 3000; i++ {
+			b = append(b, 3, byte('a'+i%26), byte('a'+i/26%26), byte('a'+i/676), 0xe0)
+		}
+		b = append(b, 3, 'l', 's', 't', 'V', 2, '[', 'm')
+		b = append(b, encInt(9000)...)
+		for i := 0; i < 9000; i++ {
+			b = append(b, 0x51, 0x91)
+		}
+		out = append(out, append(b, 'Z', 0x90))
 	}
 	// back-reference amplification (each found by a seeding sub-agent on the then-current tree):
 	// n references to one list / map from typed fields, queued destinations, a list whose
